@@ -53,7 +53,7 @@ In6Of(e) == [parse |-> e.parsed, depth |-> e.in.depth, outer |-> e.in.outer, ity
 TraceD6 ==
   /\ IsEvent("d6")
   /\ LET e == Trace[l]  in == In6Of(e)  o == e.out  exp == Reply6(in) IN
-     /\ ("C12" \in Lens) =>
+     /\ ("C12" \in Lens /\ in.cid) =>                   \* (a message without client identifier: nothing is stated)
           /\ o.n <= 1
           /\ o.sent <=> exp.sent
           /\ o.sent => /\ o.type = exp.type /\ o.rapid = exp.rapid
